@@ -805,6 +805,8 @@ def gamma(c, a, b):
         return a
     if c[0] == 'not':
         return gamma(c[1], b, a)
+    if c[0] == 'cmp' and c[1] in ('Is', 'Eq') and a == NONE and ((c[2] == a and c[3] == b) or (c[3] == a and c[2] == b)):
+        return b                        # `None if x is None else x` is x
     if c[0] == 'and' and len(c[1]) > 1 and all(x[0] == 'not' for x in c[1]):
         return gamma(or_([x[1] for x in c[1]]), b, a)           # De Morgan: `x if (not p and not q) else y` is `y if (p or q) else x`
     # a conditional between two dictionaries with the same keys is the dictionary of the conditionals (d[k] = v under a condition)
